@@ -26,7 +26,7 @@ NATURAL = {
 }
 SCHEMES = ['rtsp', 'http', 'https', 'rtmp', 's3', 'file', 'tcp', 'mqtt', 'ws', 'ftp', 'gs', 'amqp', 'redis', 'ipc']
 USERS = ['alice', '', 'a.b-c', 'us%40er', 'admin_1', 'x']
-SPECIALS = ['', '!', ':', '/', '?', '#', '!x', '%21', '$&', '=+', '!a=1', '%40', ':/?#!', '%2F%3A']
+SPECIALS = ['', '!', ':', '/', '?', '#', '!x', '%21', '$&', '=+', '!a=1', '%40', ':/?#!', '%2F%3A', ';t', ',c']
 URI_FIELD = {'Filter': 'sources', 'Util': 'sources', 'VideoIn': 'sources', 'ImageIn': 'sources', 'REST': 'sources',
              'VideoOut': 'outputs', 'ImageOut': 'outputs', 'Recorder': 'outputs', 'MQTTOut': 'outputs', 'Webvis': 'outputs'}
 DEFAULT_PATH = {'VideoIn': '/live/s1', 'VideoOut': '/live/out', 'ImageIn': '/imgs', 'ImageOut': '/i/img_%d.png',
@@ -87,8 +87,8 @@ def place_uri(cls, kind, cfg, uri, plain, first, tail):
         cfg[F] = uri
         return f'{F}_str'
     if kind == 'field_commalist':
-        cfg[F] = ', '.join(pair)
-        return f'{F}_commalist'
+        cfg[F] = (', ' if tail % 2 == 0 else ',').join(pair)       # 'a, b' and the equally valid 'a,b'
+        return f'{F}_commalist' + ('' if tail % 2 == 0 else '_nospace')
     if kind == 'field_list':
         cfg[F] = pair if tail else [uri]
         return f'{F}_list'
@@ -227,6 +227,9 @@ class Spec(MQSpec):
         # the sibling URI without credentials: same scheme, or (every other case) a different one
         pscheme = scheme if not ch.chance('gen', 1, 2) else ('http' if scheme != 'http' else 'rtsp')
         plain = f'{pscheme}://plain.example.com{path or "/p0"}'
+        if ch.chance('gen', 1, 4):
+            # the sibling carries the same credentials too (two cameras behind one account), host without a path
+            plain = f'{pscheme}://{user}:{password}@sib{host}'
 
         order = (['u'] if cls in CONSUMERS else []) + [SUBJECT] + (['d'] if cls in PRODUCERS else [])
         idx = {n: i for i, n in enumerate(order)}
